@@ -47,8 +47,12 @@ _SKIP_TYPES = (logging.Logger, types.ModuleType, types.FunctionType,
 
 def cases(tier, seed):
     n = 36 if tier == 'quick' else 1000
-    return [{'name': 'core-%d' % i, 'seed': [seed, 61, i]}
-            for i in range(n)]
+    out = [{'name': 'core-%d' % i, 'seed': [seed, 61, i]}
+           for i in range(n)]
+    n = 10 if tier == 'quick' else 200
+    out += [{'name': 'gapcore-%d' % i, 'kind': 'gapcore',
+             'seed': [seed, 62, i]} for i in range(n)]
+    return out
 
 
 def snapshot(obj, out=None, path='', memo=None, depth=0):
@@ -218,7 +222,87 @@ def record_fields(asm):
     return np.concatenate(out).copy()
 
 
+def run_gapcore(case):
+    """With the inter-assembly gap switched on an assembly still sees only
+    the gap cells it touches: heating all OTHER gap cells (twin model) before
+    a step leaves that step of the assembly unchanged (constant properties:
+    with temperature-dependent coolant the gap properties are evaluated at
+    the gap-average temperature, which is a legitimate global coupling)."""
+    res = Result(case)
+    rng = np.random.default_rng(case['seed'])
+    gap = wl.choose(rng, ['flow', 'no_flow', 'no_flow', 'duct_average'])
+    P, feats = wl.core_problem(rng, n_ring=2,
+                               n_types=int(wl.choose(rng, [1, 2, 2, 3])),
+                               tdep=False, gap=gap, empty_frac=0.25,
+                               max_rings=4, length=0.3, lf_frac=0.15,
+                               regions_frac=0.2, dd_frac=0.3,
+                               vel_range=(0.3, 4.0))
+    key = {'gap': gap}
+
+    def start(d, n0):
+        inp, r = drive.build(P, d, max_steps=MAX_STEPS)
+        with drive.quiet():
+            r._data_setup()
+            r._data_open()
+            r.axial_step0()
+            for i in range(1, n0 + 1):
+                r.axial_step(r.z[i], r.dz[i - 1], i)
+        return r
+
+    try:
+        n0 = int(rng.integers(0, 6))
+        with drive.scratch() as d1:
+            r1 = start(d1, n0)
+            if len(r1.z) < n0 + 3:
+                res.status('rejected', 'mesh too short')
+                return res
+            n_asm = len(r1.assemblies)
+            picks = [int(x) for x in rng.permutation(n_asm)[:3]]
+            base = {}
+            with drive.quiet():
+                r1.axial_step(r1.z[n0 + 1], r1.dz[n0], n0 + 1)
+            for k in picks:
+                base[k] = record_fields(r1.assemblies[k])
+            names = [a.name for a in r1.assemblies]
+        for k in picks:
+            with drive.scratch() as d2:
+                r2 = start(d2, n0)
+                adj = np.asarray(r2.core._asm_sc_adj[k])
+                touched = set(int(x) - 1 for x in adj[adj > 0])
+                others = [j for j in range(int(r2.core.n_sc))
+                          if j not in touched]
+                if not others:
+                    res.count('N3_no_foreign_gap_cells')
+                    continue
+                r2.core.coolant_gap_temp[others] += 75.0
+                with drive.quiet():
+                    r2.axial_step(r2.z[n0 + 1], r2.dz[n0], n0 + 1)
+                got = record_fields(r2.assemblies[k])
+            same = got.shape == base[k].shape and bool(
+                np.array_equal(got, base[k]))
+            worst = float(np.max(np.abs(got - base[k]))) if \
+                got.shape == base[k].shape else float('nan')
+            res.check('N3_foreign_gap_cells_do_not_reach_assembly', same,
+                      'heating the gap cells assembly %d does NOT touch by '
+                      '75 K changes its next step (max %.3e K)' % (k, worst),
+                      dict(key, shares_type=bool(names.count(names[k]) > 1)),
+                      {'asm': k, 'worst': worst, 'n_foreign': len(others)})
+        res.tag('gap=' + gap)
+        res.tag('n_asm=%d' % n_asm)
+        if n_asm >= 3:
+            res.nontrivial('gapcore/%s/%s' % (gap, case['seed'][-1]))
+        res.sample({'case': case, 'features': feats})
+    except drive.Rejected as e:
+        res.status('rejected', str(e))
+        res.tag('rejected:' + e.stage)
+    except SystemExit:
+        res.status('rejected', 'error exit during the first steps')
+    return res
+
+
 def run_case(case):
+    if case.get('kind') == 'gapcore':
+        return run_gapcore(case)
     res = Result(case)
     P, feats = build_problem(case)
     key = {'tdep': feats['tdep']}
